@@ -186,6 +186,17 @@ impl C12 {
           }
           _ => { if wants.iter().all(|w| matches!(w, Want::Exact(_))) { out.fail(format!("C12|good-conversion-rejected|{}@matrix", locus0), format!("{} [{}->{}]", case, k1, k2), o.short()); } }
         }
+        // the option spelling of the same matrix kind converts like the plain one (or is rejected): it never hands the matrix back unconverted
+        if o.is_value() {
+          out.evaluations += 1;
+          let oo = s2.run(&format!("no<[{}]?> := m", k2));
+          let (plain, opt) = (s2.get("n"), s2.get("no"));
+          match &oo {
+            Outcome::Value(_) => { out.nontrivial += 1; if plain != opt { out.fail(format!("C12|route-differs|option-matrix-kind:{}", locus0), format!("{}; no<[{}]?> := m", dm, k2), format!("n<[{}]> := m gives {:?}, the option kind {:?}", k2, plain.map(|c| c.short()), opt.map(|c| c.short()))); } else { out.count("route_agrees:option-matrix-kind"); } }
+            Outcome::Panic(m) => out.fail(format!("C12|panic|option-matrix-kind:{}", locus0), format!("{}; no<[{}]?> := m", dm, k2), m.clone()),
+            _ => out.count("route_rejected:option-matrix-kind"),
+          }
+        }
         let _ = fi;
       }
     }
